@@ -346,6 +346,9 @@ def run(ctx):
 
         units = [("esc", "%%%02X" % b, b) for b in range(256)] + [("esc-lower", "%%%02x" % b, b) for b in range(256)] + [("lit", chr(b), b) for b in range(128)]
         units += [("alias", "%" + a + a, ord(a) & 0xFF) for a in ALIAS_CHARS] + [("alias1", "%4" + a, ord(a) & 0xFF) for a in ALIAS_CHARS[::3]]
+        from ..gen import BOUNDARY_CHARS
+
+        units += [("edge", a, ord(a) >> 12) for a in BOUNDARY_CHARS]
         i = 0
         for kind, unit, b in units:
             i += 1
